@@ -386,8 +386,23 @@ func (g *rgen) items(h *hostSheet, origin string, n int, allowMedia, allowImport
 				if g.fileDepth[f] <= 2 {
 					g.importable = append(g.importable, f) // bounds every chain to 4 + 2 levels
 				}
+				// import cycles (the @import that closes the cycle loads nothing): the new file
+				// imports itself, or one of the files it imports imports it back.  A cycle never
+				// passes through a <link>ed file: link files are not importable.
+				switch r.Intn(16) {
+				case 0:
+					self := Item{Kind: "import", File: f, Var: r.Intn(4), Sp: g.spelling()}
+					at := r.Intn(len(sub.imports) + 1)
+					sh.Items = append(sh.Items[:at:at], append([]Item{self}, sh.Items[at:]...)...)
+				case 1:
+					if len(sub.imports) > 0 {
+						child := g.b.doc.Files[pick(r, sub.imports).File]
+						back := Item{Kind: "import", File: f, Var: r.Intn(4), Sp: g.spelling()}
+						child.Items = append([]Item{back}, child.Items...)
+					}
+				}
 			}
-			imp := Item{Kind: "import", File: f, Var: r.Intn(4)}
+			imp := Item{Kind: "import", File: f, Var: r.Intn(4), Sp: g.spelling()}
 			if imp.Var == 2 && excludeImportURLFunction {
 				imp.Var = 1
 			}
@@ -401,6 +416,31 @@ func (g *rgen) items(h *hostSheet, origin string, n int, allowMedia, allowImport
 			}
 		}
 	}
+	// the sheet imports one of its files once more (other spelling, other syntax, maybe other
+	// media), after the other imports or between them: the file contributes a second time there
+	if allowImport && len(h.imports) > 0 && r.Intn(3) == 0 {
+		again := pick(r, h.imports)
+		again.Var, again.Sp = r.Intn(4), g.spelling()
+		if r.Intn(4) == 0 {
+			again.Media = nil
+			if r.Intn(2) == 0 {
+				again.Media = pick(r, mediaLists)
+			}
+		}
+		at := len(h.imports)
+		if r.Intn(3) == 0 {
+			at = r.Intn(len(h.imports) + 1)
+		}
+		h.imports = append(h.imports[:at:at], append([]Item{again}, h.imports[at:]...)...)
+	}
+}
+
+// spelling draws the URL spelling of an import (mostly the plain relative one).
+func (g *rgen) spelling() int {
+	if g.r.Intn(3) == 0 {
+		return 1 + g.r.Intn(2)
+	}
+	return 0
 }
 
 func genRandom(r *rand.Rand) caseIn {
@@ -443,7 +483,23 @@ func genRandom(r *rand.Rand) caseIn {
 			}
 		}
 		a := b.newAuthor(kind, media)
+		if kind == "link" {
+			a.sp = g.spelling()
+		}
 		g.items(a.host, "author", 1+r.Intn(3), true, true)
+		if kind == "link" && r.Intn(6) == 0 {
+			// the same file is linked a second time, later in the head
+			b.deferred = append(b.deferred, func() {
+				at := 0
+				for k, x := range b.author {
+					if x == a {
+						at = k + 1 + r.Intn(len(b.author)-k)
+					}
+				}
+				alias := &authorHost{kind: "link", file: a.file, sp: g.spelling(), media: a.media, alias: true}
+				b.author = append(b.author[:at:at], append([]*authorHost{alias}, b.author[at:]...)...)
+			})
+		}
 	}
 	// style attributes and hint attributes
 	for _, e := range g.elems {
